@@ -42,19 +42,19 @@ type Scenario struct {
 
 // Replica is one application instance executing a scenario and recording events.
 type Replica struct {
-	Name    string
-	Root    string // parent of the data directories of this replica (each restart uses a fresh copy)
-	gen     int
-	App     *App
-	KR      *Keyring
-	G       *GenesisSpec
-	Opts    ProjOpts
-	NoProj  bool // record responses only
-	Dead    string
-	Height  int64 // last committed height
-	InBlock bool
-	emit    func(J)
-	LastUpdates      []abcitypes.ValidatorUpdate
+	Name        string
+	Root        string // parent of the data directories of this replica (each restart uses a fresh copy)
+	gen         int
+	App         *App
+	KR          *Keyring
+	G           *GenesisSpec
+	Opts        ProjOpts
+	NoProj      bool // record responses only
+	Dead        string
+	Height      int64 // last committed height
+	InBlock     bool
+	emit        func(J)
+	LastUpdates []abcitypes.ValidatorUpdate
 	// QueryAfterCommit: take the committed projection through Query after every Commit
 	QueryAfterCommit bool
 }
